@@ -348,9 +348,10 @@ type From struct {
 }
 
 type Join struct {
-	Kind string // "JOIN", "LEFT JOIN", "RIGHT JOIN", "OUTER JOIN", "LOOKUP JOIN"
-	L, R *From
-	On   *Expr
+	Kind  string // "JOIN", "LEFT JOIN", "RIGHT JOIN", "OUTER JOIN", "LOOKUP JOIN"
+	L, R  *From
+	On    *Expr
+	Using []string // JOIN ... USING (cols): equality of the same-named columns (columns are not merged)
 }
 
 type Proj struct {
@@ -396,6 +397,9 @@ func (f *From) SQL() string {
 		return f.CTE
 	case f.Sub != nil:
 		return "(" + f.Sub.SQL() + ") " + f.Alias
+	}
+	if len(f.Join.Using) > 0 {
+		return f.Join.L.SQL() + " " + f.Join.Kind + " " + f.Join.R.SQL() + " USING (" + strings.Join(f.Join.Using, ", ") + ")"
 	}
 	return f.Join.L.SQL() + " " + f.Join.Kind + " " + f.Join.R.SQL() + " ON " + f.Join.On.SQL()
 }
@@ -564,7 +568,23 @@ func evalFrom(f *From, ctes map[string]Rel) Rel {
 	for i, lr := range l.Rows {
 		for j, rr := range r.Rows {
 			row := append(append([]V{}, lr...), rr...)
-			if isTrue(f.Join.On.Eval(Env{names, row})) {
+			match := false
+			if len(f.Join.Using) > 0 {
+				match = true
+				for _, c := range f.Join.Using {
+					lv, ok1 := Env{l.Names, lr}.lookup(c)
+					rv, ok2 := Env{r.Names, rr}.lookup(c)
+					if !ok1 || !ok2 {
+						panic(EvalError{"USING column not found: " + c})
+					}
+					if lv.IsNull() || rv.IsNull() || Cmp(lv, rv) != 0 {
+						match = false
+					}
+				}
+			} else {
+				match = isTrue(f.Join.On.Eval(Env{names, row}))
+			}
+			if match {
 				out.Rows = append(out.Rows, row)
 				lm[i], rm[j] = true, true
 			}
